@@ -8,7 +8,7 @@ def cases(tier, seed):
     from fv.props import c10
     combos = [0, 3] if tier == "quick" else [0, 1, 2, 3]
     hs = c10.HS_QUICK if tier == "quick" else c10.HS_ALL
-    t0s = c10.T0_QUICK if tier == "quick" else c10.T0_ALL
+    t0s = [0.0, 1000.0] if tier == "quick" else c10.T0_ALL
     for combo in combos:
         yield {"runtime": "cpp", "combo": combo, "hs": hs, "t0s": t0s, "full_triples": tier == "thorough"}
 
